@@ -12,7 +12,7 @@ for m in sorted(glob.glob(os.path.join(HERE, 'seeded', '*', 'meta.json'))):
 body = """## 12. Seeded changes and which check catches them
 
 Each change was written by an independent sub-agent that was given only the text of one property and a
-scratch worktree of `/repo` (nothing from `/verif`; rounds 2 and 3 were also told which functions earlier
+scratch worktree of `/repo` (nothing from `/verif`; rounds 2 to 6 were also told which functions earlier
 rounds had changed, so that they pick a different mechanism), confirmed by me (`tools/confirm_seed.sh` /
 `tools/confirm_all.sh`: the demonstration passes 3/3 on the unmodified tree and fails with the change, the
 library builds; MPI seeds against the MPI build), and then applied to `/repo` (`tools/try_seed.sh <seed> <check>`:
@@ -53,6 +53,19 @@ the adaptor: the release of the stored arguments was not an event of the model -
 the extensions `tools/regress_seeds.sh` re-ran all twenty round-5 seeds against the final machinery in an isolated copy
 (`seeded/<id>e/regress.log`): twenty VIOLATION exits, each with a concrete failing input; the same script re-runs the older
 seeds as far as the time allows (`build/regress-summary.txt` is not committed, the per-seed `regress.log` files are).
+Round 6 (`seeded/<id>f`, sixteen properties): 10 of 16 at the first attempt, two more only as a broken correspondence /
+proof obligation (C13f: the matching monitor text would have been a listed finding's; C19f: the translator `elastic.py` saw
+the changed shape of the scheduling loop's exit condition) and four misses: C01f (`interrupt()` on a finished thread whose
+object is recycled - the same line C12/C13 already watch, now also in C01's `zoo`), C02f (a facility with *several* waiters
+released by one call), C10f (a scheduler-customised algorithm directly after `continues_on` on another pool), C17f
+(producer-token sub-queues of the third-party queue), C18f (a value completion whose conversion into the wrapper's value type
+throws). Each got a permanent extension (entries below); all sixteen are caught with a concrete failing input now.
+Regression of the whole corpus: `tools/regress_seeds.sh` re-ran all 100 seeds of rounds 1-5 against the machinery of the last
+day in an isolated copy. 96 were reported again; C03b stays benign (the genuine `split_tuple` repair removed what it
+exploited); C13c turned out to be caught only by chance (1 of 3 check seeds: the right thread object had to be recycled in a
+random program) and got the directed program `staleintr`; C20b passed once in the loaded lab and is caught on `/repo`
+(`detect-C20.log`); five round-1 patches needed a 3-way apply that the first version of the script lacked and were re-run
+(`regress.log` in each seed directory).
 
 Generated by `tools/seed_table.py` from `seeded/*/meta.json`.
 
